@@ -168,14 +168,26 @@ macro "tinv_auto" : tactic => `(tactic| (constructor <;> simp_all [hasTs, isDone
 macro "tinv_auto'" : tactic => `(tactic| (constructor <;> simp [hasTs, isDone] <;> first | omega | grind))
 
 theorem inv_start {s : St} (h : Inv s) (i : Nat) (t' : Thread) (hi : (s.thr i).pc = .idle)
-    (hpc : t'.pc = .gCall ∨ (t'.pc = .vCheck ∧ t'.retrying = false))
+    (hpc : t'.pc = .gCall ∨ t'.pc = .uRange ∨ (t'.pc = .vCheck ∧ t'.retrying = false))
     (h1 : t'.startClk = s.clock) (h2 : t'.startPd = s.pdLast) :
     Inv { s with thr := fun j => if j = i then t' else s.thr j, clock := s.clock + 1 } := by
   apply Inv.setStep h i _ s.pdLast s.low (Nat.le_refl _) (LowMono.refl _) h.lowLe
   · simp [hi]
   · intro _ _; exact ⟨h2, h1⟩
-  · rcases hpc with hpc | ⟨hpc, _⟩ <;> simp [isDone, hpc]
-  · rcases hpc with hpc | ⟨hpc, hr⟩ <;> tinv_auto
+  · rcases hpc with hpc | hpc | ⟨hpc, _⟩ <;> simp [isDone, hpc]
+  · rcases hpc with hpc | hpc | ⟨hpc, hr⟩ <;> tinv_auto
+
+theorem inv_run_uRange {s : St} (h : Inv s) (i fresh : Nat) (hpc : (s.thr i).pc = .uRange) :
+    Inv (step s (.run i fresh)) := by
+  obtain ⟨t1, t2, t2c, t3, t3c, t3d, t4, t4a, t5, t6, t7, t8⟩ := h.thr i
+  simp only [step, step', runThread, hpc, St.set]
+  split
+  all_goals
+    apply Inv.setStep h i _ s.pdLast s.low (Nat.le_refl _) (LowMono.refl _) h.lowLe
+    · simp [hpc]
+    · simp [hpc]
+    · simp [isDone]
+    · tinv_auto
 
 theorem inv_run_gCall {s : St} (h : Inv s) (i fresh : Nat) (hpc : (s.thr i).pc = .gCall) :
     Inv (step s (.run i fresh)) := by
@@ -444,7 +456,7 @@ theorem inv_step {s : St} (h : Inv s) (a : Act) : Inv (step s a) := by
     simp only [step, step']
     split
     · rename_i hi
-      exact inv_start h i _ hi (Or.inr ⟨rfl, rfl⟩) rfl rfl
+      exact inv_start h i _ hi (Or.inr (Or.inr ⟨rfl, rfl⟩)) rfl rfl
     · exact inv_tick h
   | pdIssue i inc =>
     simp only [step, step']
@@ -459,9 +471,17 @@ theorem inv_step {s : St} (h : Inv s) (a : Act) : Inv (step s a) := by
       · simp [isDone]
       · tinv_auto
     · exact inv_tick h
+  | startUpd i =>
+    simp only [step, step']
+    split
+    · rename_i hi
+      exact inv_start h i _ hi (Or.inr (Or.inl rfl)) rfl rfl
+    · exact inv_tick h
   | run i fresh =>
     cases hpc : (s.thr i).pc with
     | idle => simp only [step, step', runThread, hpc]; exact inv_tick h
+    | uFin => simp only [step, step', runThread, hpc]; exact inv_tick h
+    | uRange => exact inv_run_uRange h i fresh hpc
     | gWait => simp only [step, step', runThread, hpc]; exact inv_tick h
     | gFin => simp only [step, step', runThread, hpc]; exact inv_tick h
     | vWait => simp only [step, step', runThread, hpc]; exact inv_tick h
@@ -496,6 +516,7 @@ theorem lowMono_step {s : St} (h : Inv s) (a : Act) : LowMono s.low (step s a).l
   cases a with
   | startGet i => simp only [step, step']; split <;> exact LowMono.refl _
   | startVal i rd => simp only [step, step']; split <;> exact LowMono.refl _
+  | startUpd i => simp only [step, step']; split <;> exact LowMono.refl _
   | pdIssue i inc => simp only [step, step']; split <;> exact LowMono.refl _
   | run i fresh =>
     obtain ⟨t1, t2, t2c, t3, t3c, t3d, t4, t4a, t5, t6, t7, t8⟩ := h.thr i
@@ -535,6 +556,7 @@ theorem pdLast_step (s : St) (a : Act) : s.pdLast ≤ (step s a).pdLast := by
   cases a with
   | startGet i => simp only [step, step']; split <;> simp [St.set]
   | startVal i rd => simp only [step, step']; split <;> simp [St.set]
+  | startUpd i => simp only [step, step']; split <;> simp [St.set]
   | pdIssue i inc => simp only [step, step']; split <;> simp [St.set]; omega
   | run i fresh =>
     cases hpc : (s.thr i).pc <;> simp only [step, step', runThread, hpc, St.set] <;>
@@ -552,6 +574,7 @@ theorem started_stable_step (s : St) (a : Act) (j : Nat) (hj : (s.thr j).pc ≠ 
   cases a with
   | startGet i => simp only [step, step']; split <;> simp [St.set, hj] <;> split <;> simp_all
   | startVal i rd => simp only [step, step']; split <;> simp [St.set, hj] <;> split <;> simp_all
+  | startUpd i => simp only [step, step']; split <;> simp [St.set, hj] <;> split <;> simp_all
   | pdIssue i inc => simp only [step, step']; split <;> simp [St.set, hj] <;> split <;> simp_all
   | run i fresh =>
     cases hpc : (s.thr i).pc <;> simp only [step, step', runThread, hpc, St.set] <;>
